@@ -14,6 +14,7 @@ FACILITY = {"abbr": "abbreviations", "stream-enum": "abbreviations", "parse": "s
             "stream-q": DISPATCH, "print-std": DISPATCH, "compare": DISPATCH,
             "convert": DISPATCH, "convert-inplace": DISPATCH, "static": "none", "plain": "none",
             "system": "unit-system-tables", "model": "model-tables", "dims": "none",
+            "misc": "none",
             "abbr-all": "abbreviations", "related-all": "related-unit-systems", "parse-all": "spellings",
             "consistent-all": "consistent-units", "convert-all": DISPATCH, "quantity-all": DISPATCH}
 TABLE_KINDS = {k for k, v in FACILITY.items() if v != "none"}
@@ -239,6 +240,35 @@ class ProbeGen:
         else:
             body = ("const auto m = %s; return vrt::cs([&m](std::ostream& os) { os << static_cast<const PhQ::ConstitutiveModel&>(m); });" % solid)
         return self.mk("model", hdrs, body, "model")
+
+    def misc(self):
+        """facilities that rely on no library table today (control group); a table added behind one of
+        them by a later change would make them order-dependent"""
+        T = self.rng.choice(NUMERIC)
+        v = lambda: self.val(T)
+        w = self.rng.below(9)
+        hdr = ["PhQ/Base.hpp", "PhQ/Vector.hpp", "PhQ/Dyad.hpp", "PhQ/SymmetricDyad.hpp", "PhQ/PlanarVector.hpp", "PhQ/Dimensions.hpp", "PhQ/Direction.hpp", "PhQ/Angle.hpp"]
+        if w == 0:
+            body = "return vrt::c(PhQ::Print(%s)) + vrt::c(PhQ::Print(%s * static_cast<%s>(1.0e-5))) + vrt::c(PhQ::Print(%s * static_cast<%s>(1.0e7)));" % (v(), v(), T, v(), T)
+        elif w == 1:
+            body = "return vrt::c(PhQ::ParseNumber<%s>(PhQ::Print(%s))) + vrt::c(PhQ::ParseNumber<%s>(\"abc\")) + vrt::c(PhQ::ParseNumber<%s>(\"1e999\"));" % (T, v(), T, T)
+        elif w == 2:
+            body = "return vrt::c(PhQ::SnakeCase(\"Elastic Isotropic Solid\")) + vrt::c(PhQ::Uppercase(\"m/s\")) + vrt::c(PhQ::Lowercase(\"Kg\"));"
+        elif w == 3:
+            body = "const PhQ::Vector<%s> a{%s, %s, %s}; const PhQ::Vector<%s> b{%s, %s, %s}; return vrt::c(a.Print()) + vrt::c(a.Magnitude()) + vrt::c(a.Angle(b).Value()) + vrt::c(a.Direction().Value().x_y_z()) + vrt::c(a.Cross(b).JSON());" % (T, v(), v(), v(), T, v(), v(), v())
+        elif w == 4:
+            body = "const PhQ::Dyad<%s> d{%s}; const auto inv = d.Inverse(); return vrt::c(d.YAML()) + vrt::c(d.Determinant()) + vrt::c(inv.has_value()) + vrt::cs([&d](std::ostream& os) { os << d; });" % (T, ", ".join(v() for _ in range(9)))
+        elif w == 5:
+            body = "const PhQ::SymmetricDyad<%s> d{%s}; return vrt::c(d.XML()) + vrt::c(d.Trace()) + vrt::c(std::hash<PhQ::SymmetricDyad<%s>>()(d));" % (T, ", ".join(v() for _ in range(6)), T)
+        elif w == 6:
+            body = ("const PhQ::Dimensions d{PhQ::Dimension::Time{-2}, PhQ::Dimension::Length{1}, PhQ::Dimension::Mass{1}, PhQ::Dimension::ElectricCurrent{0}, "
+                    "PhQ::Dimension::Temperature{0}, PhQ::Dimension::SubstanceAmount{0}, PhQ::Dimension::LuminousIntensity{0}}; "
+                    "return vrt::c(d.Print()) + vrt::c(d.JSON()) + vrt::c(d.XML()) + vrt::c(d.YAML()) + vrt::c(std::hash<PhQ::Dimensions>()(d)) + vrt::cs([&d](std::ostream& os) { os << d; });")
+        elif w == 7:
+            body = "const PhQ::PlanarVector<%s> a{%s, %s}; return vrt::c(a.Print()) + vrt::c(a.PlanarDirection().Value().x_y()) + vrt::c(a.Magnitude());" % (T, v(), v())
+        else:
+            body = "const PhQ::Direction<%s> d{%s, %s, %s}; return vrt::c(d.Print()) + vrt::c(d.Magnitude()) + vrt::cs([&d](std::ostream& os) { os << d; });" % (T, v(), v(), v())
+        return self.mk("misc", hdr, body, "table-free facility %d <%s>" % (w, T))
 
     # -- batch probes: one probe walks every enumerator / literal of a unit type (exhaustive, cheap to compile)
     def abbr_all(self, U):
